@@ -80,6 +80,16 @@ func c30NewEnv(now time.Time) (*c30Env, error) {
 	return e, nil
 }
 
+// c30NewEnvClock is c30NewEnv with a clock the caller can move (sequence family).
+func c30NewEnvClock(clock *time.Time) (*c30Env, error) {
+	e, err := c30NewEnv(*clock)
+	if err != nil {
+		return nil, err
+	}
+	e.helper.SetNow(func() time.Time { return *clock })
+	return e, nil
+}
+
 func c30B64(b []byte) string { return base64.RawURLEncoding.EncodeToString(b) }
 
 func c30JSON(m map[string]any) string {
@@ -647,6 +657,225 @@ func c30TokenPart(rep *mc.Report) {
 	rep.Sample(map[string]any{"part": "tokens", "exp": "now-5s", "accepted": err == nil, "error": fmt.Sprint(err)})
 }
 
+// ---------- sequences on ONE verifier instance ----------
+//
+// The token matrix presents every token to a fresh state. Here a small set of tokens is presented repeatedly to ONE
+// JWTHelper while the clock moves (forwards and backwards) between the presentations, alone and interleaved with a
+// second token. Oracle: every single decision (accept/reject, granted bits, user) equals the decision a fresh helper
+// makes for that (token, clock) - verification is a function of (token, now, keys) - and, where the statement decides
+// the case, the usual reasons (an expired token accepted because it was accepted earlier is token-accepted-expired).
+
+type c30SeqToken struct {
+	name   string
+	claims c30Claims // offsets relative to c30Now
+	tok    string
+}
+
+type c30SeqStep struct{ tok, reading int }
+
+var c30ReadingNames = []string{"inside window", "exp+4s", "exp+6s", "nbf-6s", "nbf-4s"}
+
+func (t c30SeqToken) clock(reading int) time.Time {
+	var off int64
+	switch reading {
+	case 0:
+		off = *t.claims.nbf // first second of the window; every token here has nbf < exp
+		if off < *t.claims.exp-1 {
+			off++
+		}
+	case 1:
+		off = *t.claims.exp + 4
+	case 2:
+		off = *t.claims.exp + 6
+	case 3:
+		off = *t.claims.nbf - 6
+	case 4:
+		off = *t.claims.nbf - 4
+	}
+	return c30Now.Add(time.Duration(off) * time.Second)
+}
+
+type c30Decision struct {
+	accepted bool
+	grants   string
+	user     string
+}
+
+func c30Decide(e *c30Env, tok string) c30Decision {
+	ai, err := c30Parse(e, tok)
+	if err != nil {
+		return c30Decision{}
+	}
+	return c30Decision{accepted: true, grants: c30GotGrants(&ai).String(), user: ai.user}
+}
+
+func c30SequencePart(rep *mc.Report) {
+	base, err := c30NewEnv(c30Now)
+	if err != nil {
+		rep.Infra(err.Error())
+		return
+	}
+	good := c30Envelope{name: "EdDSA/kid=key0/signed-by-key0", alg: "EdDSA", kid: 0, signer: 0}
+	mk := func(name string, nbf, exp int64, subject int, bits []string) c30SeqToken {
+		c := c30Claims{iss: c30Ptr("vkuth"), subject: subject, exp: c30Ptr(exp), nbf: c30Ptr(nbf), iat: c30Ptr(nbf), bits: bits}
+		return c30SeqToken{name: name, claims: c, tok: base.token(good, c, c30Now)}
+	}
+	tokens := []c30SeqToken{
+		mk("valid now, admin bits", -10, 100, c30SubjUser, []string{c30App + ":admin", c30App + ":edit_default"}),
+		mk("valid soon (nbf in the future), view bits", 50, 100, c30SubjUser, []string{c30App + ":view_default", c30App + ":view_metric.foo_bar"}),
+		mk("about to expire, edit bits", -10, 2, c30SubjUser, []string{c30App + ":edit_prefix.foo_"}),
+		mk("valid now, other subject, no bits", -10, 100, c30SubjService, nil),
+	}
+	maxLen := mc.Pick(3, 4)
+	rep.Bounds["sequence_tokens"] = len(tokens)
+	rep.Bounds["sequence_clock_readings"] = c30ReadingNames
+	rep.Bounds["sequences"] = fmt.Sprintf("every sequence of 1..%d presentations (token, clock reading of that token) over every single token and every pair of tokens, one JWTHelper per sequence", maxLen)
+
+	// decisions of a fresh verifier, one per (token, clock of a reading of any token)
+	type fk struct {
+		tok   int
+		clock int64
+	}
+	fresh := map[fk]c30Decision{}
+	for ti := range tokens {
+		for tj := range tokens {
+			for r := range c30ReadingNames {
+				clk := tokens[tj].clock(r)
+				if _, ok := fresh[fk{ti, clk.Unix()}]; ok {
+					continue
+				}
+				e, err := c30NewEnv(clk)
+				if err != nil {
+					rep.Infra(err.Error())
+					return
+				}
+				fresh[fk{ti, clk.Unix()}] = c30Decide(e, tokens[ti].tok)
+			}
+		}
+	}
+	// work units: token sets {i} and {i,j}
+	var sets [][]int
+	for i := range tokens {
+		sets = append(sets, []int{i})
+	}
+	for i := range tokens {
+		for j := i + 1; j < len(tokens); j++ {
+			sets = append(sets, []int{i, j})
+		}
+	}
+	units := make([]c30Unit, len(sets))
+	nontrivial := make([]int64, len(sets))
+	seqs := make([]int64, len(sets))
+	c30Parallel(len(sets), func(ui int) {
+		u := &units[ui]
+		u.outcomes = map[string]bool{}
+		set := sets[ui]
+		var steps []c30SeqStep
+		for _, t := range set {
+			for r := range c30ReadingNames {
+				steps = append(steps, c30SeqStep{t, r})
+			}
+		}
+		seq := make([]c30SeqStep, 0, maxLen)
+		var run func()
+		curLen := 0 // sequences are run shortest first, so that the first example of a signature is a minimal one
+		run = func() {
+			if len(seq) == curLen {
+				// a pair unit only runs sequences that really use both tokens (the others belong to the single units)
+				used := map[int]bool{}
+				for _, st := range seq {
+					used[st.tok] = true
+				}
+				if len(used) == len(set) {
+					seqs[ui]++
+					clock := c30Now
+					e, err := c30NewEnvClock(&clock)
+					if err != nil {
+						u.violate("C30:harness", err.Error(), nil)
+						return
+					}
+					var verdicts []string
+					mixed := false
+					firstVerdict := map[int]bool{}
+					for k, st := range seq {
+						clock = tokens[st.tok].clock(st.reading)
+						got := c30Decide(e, tokens[st.tok].tok)
+						u.execs++
+						want := fresh[fk{st.tok, clock.Unix()}]
+						verdicts = append(verdicts, fmt.Sprintf("%q at %s (now%+ds) -> accepted=%v", tokens[st.tok].name, c30ReadingNames[st.reading], clock.Unix()-c30Now.Unix(), got.accepted))
+						if fv, ok := firstVerdict[st.tok]; ok && fv != want.accepted {
+							mixed = true
+						}
+						if _, ok := firstVerdict[st.tok]; !ok {
+							firstVerdict[st.tok] = want.accepted
+						}
+						if got == want {
+							continue
+						}
+						// classify with the statement's table where it decides the case
+						d := clock.Unix() - c30Now.Unix()
+						shifted := tokens[st.tok].claims
+						shifted.exp, shifted.nbf, shifted.iat = c30Ptr(*shifted.exp-d), c30Ptr(*shifted.nbf-d), c30Ptr(*shifted.iat-d)
+						mustReject, mustAccept := c30TokenRef(good, shifted, 0)
+						sig := "C30:verdict-depends-on-history"
+						switch {
+						case got.accepted && len(mustReject) != 0:
+							sig = "C30:token-accepted-" + mustReject[0] + "-after-earlier-presentations"
+						case !got.accepted && mustAccept:
+							sig = "C30:valid-token-rejected-after-earlier-presentations"
+						case got.accepted && want.accepted:
+							sig = "C30:granted-bits-depend-on-history"
+						}
+						u.violate(sig, fmt.Sprintf("presentation %d of the sequence [%s] on one JWTHelper: got accepted=%v {%s} user %q, a fresh JWTHelper decides accepted=%v {%s} user %q",
+							k+1, strings.Join(verdicts, "; "), got.accepted, got.grants, got.user, want.accepted, want.grants, want.user),
+							map[string]any{"sequence": verdicts, "token": tokens[st.tok].tok})
+					}
+					if mixed {
+						nontrivial[ui]++
+					}
+					u.outcomes[strings.Join(verdicts, ";")] = true
+				}
+			}
+			if len(seq) == curLen {
+				return
+			}
+			for _, st := range steps {
+				seq = append(seq, st)
+				run()
+				seq = seq[:len(seq)-1]
+			}
+		}
+		for curLen = 1; curLen <= maxLen; curLen++ {
+			run()
+		}
+	})
+	var execs, nseq, nt int64
+	distinct := map[string]bool{}
+	for i := range units {
+		for _, f := range units[i].found {
+			rep.Violate(f.Sig, f.Desc, f.Detail)
+		}
+		execs += units[i].execs
+		nseq += seqs[i]
+		nt += nontrivial[i]
+		for k := range units[i].outcomes {
+			distinct[k] = true
+		}
+	}
+	accepts := 0
+	for _, d := range fresh {
+		if d.accepted {
+			accepts++
+		}
+	}
+	rep.AddCounts(execs, execs, nseq, nt)
+	rep.Outcome(fmt.Sprintf("sequences:distinct_verdict_sequences=%d", len(distinct)))
+	rep.Parts["sequences"] = map[string]any{"sequences": nseq, "presentations": execs, "sequences_where_a_token_is_both_accepted_and_rejected": nt,
+		"fresh_decisions": len(fresh), "fresh_decisions_accepting": accepts, "distinct_verdict_sequences": len(distinct)}
+	rep.Sample(map[string]any{"part": "sequences", "sequence": "token 'about to expire' at: inside window, exp+6s, inside window", "fresh verdicts": []bool{
+		fresh[fk{2, tokens[2].clock(0).Unix()}].accepted, fresh[fk{2, tokens[2].clock(2).Unix()}].accepted, fresh[fk{2, tokens[2].clock(0).Unix()}].accepted}})
+}
+
 func c30Parallel(n int, f func(i int)) {
 	var next atomic.Int64
 	var wg sync.WaitGroup
@@ -1024,14 +1253,16 @@ func c30PolicyPart(rep *mc.Report) {
 
 func TestVerifC30(t *testing.T) {
 	rep := mc.NewReport("C30")
-	rep.Rule = "tokens: every combination of envelope (alg EdDSA/HS256/none x kid named/other configured/unknown/absent/non-string x signing key x 11 tamperings of a validly signed token x kind header) x issuer x subject kind x exp offset x nbf offset x bit set, hand-assembled and passed to the real parseAccessToken with an injected now; policy: every subset of the bit alphabet carried by a real token (with a foreign-app copy of every absent bit), then every metric name (view) and every (old name, new name, single attribute change, create) (edit). Non-trivial = token that is valid or invalid for exactly one reason / decision where a bit matches or a remote-config metric is involved / guarded attribute change by someone with rights on the names"
+	rep.Rule = "tokens: every combination of envelope (alg EdDSA/HS256/none x kid named/other configured/unknown/absent/non-string x signing key x 11 tamperings of a validly signed token x kind header) x issuer x subject kind x exp offset x nbf offset x bit set, hand-assembled and passed to the real parseAccessToken with an injected now; policy: every subset of the bit alphabet carried by a real token (with a foreign-app copy of every absent bit), then every metric name (view) and every (old name, new name, single attribute change, create) (edit); sequences: every sequence of up to 3/4 presentations of (token, clock reading) over single tokens and pairs of tokens on ONE JWTHelper with a moving clock, each decision compared with a fresh helper's. Non-trivial = token that is valid or invalid for exactly one reason / decision where a bit matches or a remote-config metric is involved / guarded attribute change by someone with rights on the names / sequence in which the same token must be both accepted and rejected"
 	rep.Assume("local-mode / insecure-mode (access control switched off by configuration) and the token-less health-check endpoint are outside the statement")
 	rep.Assume("signature primitives (crypto/ed25519, HMAC) are trusted; the harness signs with them")
 	t0 := time.Now()
 	c30TokenPart(rep)
 	t1 := time.Now()
 	c30PolicyPart(rep)
-	t.Logf("C30: token part %.1fs, policy part %.1fs", t1.Sub(t0).Seconds(), time.Since(t1).Seconds())
+	t2 := time.Now()
+	c30SequencePart(rep)
+	t.Logf("C30: token part %.1fs, policy part %.1fs, sequence part %.1fs", t1.Sub(t0).Seconds(), t2.Sub(t1).Seconds(), time.Since(t2).Seconds())
 	if err := rep.Write(); err != nil {
 		t.Fatal(err)
 	}
